@@ -1,9 +1,182 @@
-(* C03 - the state-passing model interface is pure and equals direct assignment. *)
+(* C03 - the state-passing model interface is pure and equals direct assignment.
+   Model: Graph/Iface.v over the cached-graph machine Graph/Graph.v (literal instance).
+   For every value type V, function symbols F, meaning interp, every well-formed graph g, every pair of
+   name spaces nm (node names, variable names -> value node; the node name wins), every state [internal]
+   of the interface's private model copy (in particular: after any sequence of earlier calls, and for both
+   values of its auto_update flag), every position pos (list of key/value pairs, assigned in order).
+   [good_state st] is the precondition the code documents: st is a complete state of this model, every
+   cached node holds its from-scratch value and no node is flagged outdated. *)
 From Coq Require Import List Bool Arith.
 Import ListNotations.
-From LV Require Import Graph.Graph Graph.GraphProofs Graph.Iface Graph.IfaceProofs.
+From LV Require Import Graph.Graph Graph.GraphProofs Graph.GraphExamples Graph.Iface Graph.IfaceProofs Graph.IfaceExamples.
 
+(* the result - and the state the private copy is left in - does not depend on the calls made before:
+   for EVERY model state and position, raising calls included *)
+Theorem C03_history_independent : forall (V F : Type) (interp : F -> list V -> V) (dflt : V) (g : graph F)
+  (nm : names) (i0 : mstate V) (calls : list (list (nat * V) * snap V)) (pos : list (nat * V)) (st : snap V),
+  update_state (lit interp dflt) g nm (run_calls (lit interp dflt) g nm i0 calls) pos st
+  = update_state (lit interp dflt) g nm i0 pos st.
+Proof. exact history_independent. Qed.
+Print Assumptions C03_history_independent.
+
+(* the private copy influences a call only through its auto_update flag (which no call changes) *)
 Theorem C03_internal_only_auto : forall (V F : Type) (I : impl V F) (g : graph F) nm (i1 i2 : mstate V) pos st,
   auto i1 = auto i2 -> update_state I g nm i1 pos st = update_state I g nm i2 pos st.
 Proof. exact update_state_internal_irrel. Qed.
 Print Assumptions C03_internal_only_auto.
+
+(* the call raises exactly when some key names neither a Value node nor a strong variable *)
+Theorem C03_raises_iff : forall (V F : Type) (interp : F -> list V -> V) (dflt : V) (g : graph F)
+  (nm : names) (i : mstate V) (pos : list (nat * V)) (st : snap V),
+  snd (update_state (lit interp dflt) g nm i pos st) = None <-> pos_ok g nm (map fst pos) = false.
+Proof. exact update_state_raises_iff. Qed.
+Print Assumptions C03_raises_iff.
+
+(* update_state on an up-to-date state: no flag is left, every non-transient node holds the from-scratch
+   value for (input values of st overlaid with pos), the result is again a good state *)
+Theorem C03_update_state_spec : forall (V F : Type) (interp : F -> list V -> V) (dflt : V) (g : graph F), wf g ->
+  forall (nm : names) (internal : mstate V) (pos : list (nat * V)) (st : snap V),
+  good_state V F interp dflt g st -> pos_ok g nm (map fst pos) = true ->
+  exists r, snd (update_state (lit interp dflt) g nm internal pos st) = Some r
+    /\ (forall k, k < length g -> getb (sn_flags r) k = false)
+    /\ (forall k n, nth_error g k = Some n -> kd n <> KTrans ->
+          getv dflt (sn_vals r) k = denote interp dflt g (overlay nm (sn_vals st) pos) k)
+    /\ good_state V F interp dflt g r.
+Proof. exact update_state_spec_explicit. Qed.
+Print Assumptions C03_update_state_spec.
+
+(* ... which is the state Model.__init__ computes from scratch for these input values *)
+Theorem C03_update_state_is_scratch : forall (V F : Type) (interp : F -> list V -> V) (dflt : V) (g : graph F), wf g ->
+  forall (nm : names) (internal : mstate V) (pos : list (nat * V)) (st r : snap V),
+  good_state V F interp dflt g st ->
+  snd (update_state (lit interp dflt) g nm internal pos st) = Some r ->
+  view dflt g r = view dflt g (snapshot (lit interp dflt) g (cur (init interp dflt g (overlay nm (sn_vals st) pos)))).
+Proof. exact update_state_init. Qed.
+Print Assumptions C03_update_state_is_scratch.
+
+(* ... and the state the model itself shows after the same values are assigned directly (same key
+   resolution) and the model is fully updated, whatever auto_update is on either side *)
+Theorem C03_equals_direct_assignment : forall (V F : Type) (interp : F -> list V -> V) (dflt : V) (g : graph F), wf g ->
+  forall (nm : names) (internal : mstate V) (pos : list (nat * V)) (rs : rstate V) (r : snap V),
+  RInv V F interp dflt g rs ->
+  (forall k, k < length g -> outdated g (cur rs) k = false) ->
+  snd (update_state (lit interp dflt) g nm internal pos (snapshot (lit interp dflt) g (cur rs))) = Some r ->
+  view dflt g r = view dflt g (snapshot (lit interp dflt) g (cur (run interp dflt g (direct_ops nm pos) rs))).
+Proof. exact equals_direct. Qed.
+Print Assumptions C03_equals_direct_assignment.
+
+(* on up-to-date states the result is the same for any two private copies: any earlier calls, auto_update on
+   or off when the interface was created; both raise or neither *)
+Theorem C03_auto_update_irrelevant : forall (V F : Type) (interp : F -> list V -> V) (dflt : V) (g : graph F), wf g ->
+  forall (nm : names) (i1 i2 : mstate V) (pos : list (nat * V)) (st : snap V),
+  good_state V F interp dflt g st ->
+  match snd (update_state (lit interp dflt) g nm i1 pos st), snd (update_state (lit interp dflt) g nm i2 pos st) with
+  | Some r1, Some r2 => view dflt g r1 = view dflt g r2
+  | None, None => True
+  | _, _ => False
+  end.
+Proof. exact auto_irrelevant. Qed.
+Print Assumptions C03_auto_update_irrelevant.
+
+(* put-get, for every complete state: extracting the keys of the position from the result gives back the
+   position, provided the keys name pairwise different nodes *)
+Theorem C03_extract_update : forall (V F : Type) (interp : F -> list V -> V) (dflt : V) (g : graph F)
+  (nm : names) (internal : mstate V) (pos : list (nat * V)) (st r : snap V),
+  length (sn_vals st) = length g ->
+  NoDup (map (fun kv : nat * V => resolve nm (fst kv)) pos) ->
+  snd (update_state (lit interp dflt) g nm internal pos st) = Some r ->
+  extract_position dflt g nm (map fst pos) r = Some (map (fun kv : nat * V => Some (snd kv)) pos).
+Proof. exact extract_update. Qed.
+Print Assumptions C03_extract_update.
+
+(* get-put: putting back what extract_position returns leaves an up-to-date state as it is *)
+Theorem C03_update_extract : forall (V F : Type) (interp : F -> list V -> V) (dflt : V) (g : graph F), wf g ->
+  forall (nm : names) (internal : mstate V) (pos : list (nat * V)) (st r : snap V),
+  good_state V F interp dflt g st ->
+  extract_position dflt g nm (map fst pos) st = Some (map (fun kv : nat * V => Some (snd kv)) pos) ->
+  snd (update_state (lit interp dflt) g nm internal pos st) = Some r ->
+  view dflt g r = view dflt g st.
+Proof. exact update_extract. Qed.
+Print Assumptions C03_update_extract.
+
+(* the interface's log-probability of the result is the from-scratch value of the "_model_log_prob" node,
+   when that node caches its value (repair 3a71d35) ... *)
+Theorem C03_log_prob : forall (V F : Type) (interp : F -> list V -> V) (dflt : V) (g : graph F), wf g ->
+  forall (nm : names) (internal : mstate V) (pos : list (nat * V)) (st r : snap V) (lp : nat) (n : node F),
+  good_state V F interp dflt g st ->
+  snd (update_state (lit interp dflt) g nm internal pos st) = Some r ->
+  nth_error g lp = Some n -> kd n = KCached ->
+  log_prob dflt g lp r = Some (Some (denote interp dflt g (overlay nm (sn_vals st) pos) lp)).
+Proof. exact log_prob_spec. Qed.
+Print Assumptions C03_log_prob.
+
+(* ... and None for every state when it is a transient node (the code before the repair) *)
+Theorem C03_log_prob_transient_refuted : forall (V F : Type) (dflt : V) (g : graph F) (lp : nat) (n : node F) (r : snap V),
+  nth_error g lp = Some n -> kd n = KTrans -> log_prob dflt g lp r = Some None.
+Proof. exact log_prob_transient_none. Qed.
+Print Assumptions C03_log_prob_transient_refuted.
+
+(* the table-driven instance run by the correspondence shards is the literal model *)
+Theorem C03_memo_is_lit : forall (V F : Type) (interp : F -> list V -> V) (dflt : V) (g : graph F), wf g ->
+  forall (nm : names) (internal : mstate V) (pos : list (nat * V)) (st : snap V),
+  length (sn_vals st) = length g ->
+  update_state (memo interp dflt) g nm internal pos st = update_state (lit interp dflt) g nm internal pos st.
+Proof. exact update_state_memo_lit. Qed.
+Print Assumptions C03_memo_is_lit.
+
+(* dict / dataclass / named-tuple interfaces: put-get, frame, get-put, fields kept *)
+Theorem Iface_dict_laws : forall (V : Type) (strict : bool) (pos : list (nat * V)) (st st' : fstate V),
+  (NoDup (map fst pos) -> fupdate strict pos st = Some st' -> fextract (map fst pos) st' = Some (map snd pos))
+  /\ (fupdate strict pos st = Some st' -> forall k, ~ In k (map fst pos) -> fget st' k = fget st k)
+  /\ (fextract (map fst pos) st = Some (map snd pos) -> fupdate strict pos st = Some st)
+  /\ (fupdate true pos st = Some st' -> map fst st' = map fst st).
+Proof.
+  exact (fun V strict pos st st' =>
+    conj (flat_put_get V strict pos st st')
+      (conj (fun H k => fupdate_frame V strict pos st st' k H)
+        (conj (flat_get_put V strict pos st) (flat_strict_fields V pos st st')))).
+Qed.
+Print Assumptions Iface_dict_laws.
+
+(* ---- non-vacuity and documented limits --------------------------------------------------------------- *)
+Example C03_example_hypotheses :
+  good_state nat nat exi 0 exg ex_st0 /\ pos_ok exg ex_nm (map fst ex_pos) = true
+  /\ NoDup (map (fun kv : nat * nat => resolve ex_nm (fst kv)) ex_pos).
+Proof. exact ex_good. Qed.
+
+Example C03_example_call :
+  let r1 := snd (update_state ex_lit exg ex_nm (hollow 0 exg true) ex_pos ex_st0) in
+  let r2 := snd (update_state ex_lit exg ex_nm (hollow 0 exg false) ex_pos ex_st0) in
+  let i3 := run_calls ex_lit exg ex_nm (hollow 0 exg true) [([(0, 9)], ex_st0); ([(33, 1)], ex_st0)] in
+  let r3 := snd (update_state ex_lit exg ex_nm i3 ex_pos ex_st0) in
+  option_map (view 0 exg) r1 = option_map (view 0 exg) r2 /\ r1 = r3 /\ r1 <> None
+  /\ option_map (view 0 exg) r1 <> Some (view 0 exg ex_st0)
+  /\ option_map (extract_position 0 exg ex_nm [10; 1; 6; 3]) r1
+     = Some (Some [Some 5; Some 7; Some (denote exi 0 exg [5; 7] 6); None])
+  /\ option_map (log_prob 0 exg 6) r1 = Some (Some (Some (denote exi 0 exg [5; 7] 6))).
+Proof. exact ex_call. Qed.
+
+(* documented limit (the code's docstring states the precondition): on a state that still carries outdated
+   flags the result differs from direct assignment + update() *)
+Example C03_outdated_input_refuted :
+  (exists k, k < length exg /\ getb (sn_flags ex_st_dirty) k = true)
+  /\ RInv nat nat exi 0 exg ex_rs_dirty
+  /\ exists r, snd (update_state ex_lit exg ex_nm (hollow 0 exg true) [(1, 7)] ex_st_dirty) = Some r
+     /\ view 0 exg r
+        <> view 0 exg (snapshot ex_lit exg (cur (run exi 0 exg (direct_ops ex_nm [(1, 7)]) ex_rs_dirty))).
+Proof. exact ex_outdated_input. Qed.
+
+(* documented limit: a position naming one node twice (node name and variable name): the later key wins *)
+Example C03_aliased_keys_last_wins :
+  option_map (extract_position 0 exg ex_nm [10; 0])
+             (snd (update_state ex_lit exg ex_nm (hollow 0 exg true) [(10, 5); (0, 6)] ex_st0))
+  = Some (Some [Some 6; Some 6])
+  /\ ~ NoDup (map (fun kv : nat * nat => resolve ex_nm (fst kv)) [(10, 5); (0, 6)]).
+Proof. exact ex_aliased_keys. Qed.
+
+Example C03_example_flat :
+  fupdate true [(2, 9)] [(1, 5); (2, 6); (3, 7)] = Some [(1, 5); (2, 9); (3, 7)]
+  /\ fupdate true [(4, 9)] [(1, 5); (2, 6)] = None
+  /\ fupdate false [(4, 9); (1, 0)] [(1, 5); (2, 6)] = Some [(1, 0); (2, 6); (4, 9)]
+  /\ fextract [3; 1] [(1, 5); (2, 6); (3, 7)] = Some [7; 5].
+Proof. exact ex_flat. Qed.
